@@ -33,6 +33,63 @@ func embeddable(src string) bool {
 	return !strings.Contains(src, "${{")
 }
 
+// the same text as an `if:` condition written without ${{ }} (rule_expression.go
+// appends the end marker itself)
+const ifPrefix = "on: push\njobs:\n  j:\n    runs-on: ubuntu-latest\n    steps:\n      - run: echo\n        if: "
+const ifLine = 7
+const ifValueCol = 13
+
+var yamlSpecial = map[string]bool{"true": true, "false": true, "null": true, "yes": true, "no": true, "on": true, "off": true, "y": true, "n": true, "~": true}
+
+// ifEmbeddable: src = text + "}}" where text is a one-line plain YAML scalar that
+// yaml.v3 resolves to a string
+func ifEmbeddable(src string) (string, bool) {
+	if !embeddable(src) || strings.Count(src, "}}") != 1 {
+		return "", false
+	}
+	text := strings.TrimSuffix(src, "}}")
+	if text == "" || text != strings.TrimSpace(text) || yamlSpecial[strings.ToLower(text)] {
+		return "", false
+	}
+	c := text[0]
+	if !(c >= 'a' && c <= 'z' || c >= 'A' && c <= 'Z' || c == '(' || c == '_') {
+		return "", false
+	}
+	if strings.ContainsAny(text, "{}\"") || strings.HasSuffix(text, ":") {
+		return "", false
+	}
+	return text, true
+}
+
+func ifOracle(l *actionlint.Linter, src string, ir implResult) lintResult {
+	text, ok := ifEmbeddable(src)
+	if !ok {
+		return lintResult{ok: true}
+	}
+	errs, err := l.Lint("<stdin>", []byte(ifPrefix+text+"\n"), nil)
+	if err != nil {
+		return lintResult{false, "Linter.Lint failed: " + err.Error(), ""}
+	}
+	var sb strings.Builder
+	for _, e := range errs {
+		sb.WriteString(e.Kind + "@" + itoa(e.Line) + ":" + itoa(e.Column) + " " + e.Message + " | ")
+	}
+	got := sb.String()
+	if ir.accepted {
+		for _, e := range errs {
+			if c, _ := parseErrClass(e.Message); lexErrClass(e.Message) >= 0 || c >= 0 {
+				return lintResult{false, "accepted text produces a syntax diagnostic as an if: condition", got}
+			}
+		}
+		return lintResult{true, "", got}
+	}
+	wantCol := ifValueCol + ir.err.Column - 1
+	if len(errs) != 1 || errs[0].Kind != "expression" || errs[0].Message != ir.err.Message || errs[0].Line != ifLine || errs[0].Column != wantCol {
+		return lintResult{false, "rejected text used as an if: condition does not yield exactly the parser's diagnostic at the offending character (want line " + itoa(ifLine) + " column " + itoa(wantCol) + ")", got}
+	}
+	return lintResult{true, "", got}
+}
+
 type lintResult struct {
 	ok   bool
 	what string
